@@ -146,7 +146,7 @@ def run(rep, tier, seed):
     rnd = random.Random(seed)
     jobs = []
     metas = []
-    for i in range(1200 if tier == "quick" else 15000):
+    for i in range(2400 if tier == "quick" else 15000):
         prog = rand_prog(rnd)
         gh, pk = rand_stream(rnd)
         skip = rnd.random() < 0.25
